@@ -47,6 +47,7 @@ var Tokens = []string{
 	"%", "+", "%4", "%41", "%zz", "%2", "%25", "%u0041", "%u00", "%uFF01", "%U0041", "%u", "%u2019", "%uff1c", "%u00e9", "%uFF5E", "%u0131", "%u00A", "%u%41", "%u+", "%U00C", "%u212a", "%00", "%2b", "%2B", "%C3%A9",
 	" ", "  ", "\t", "\n", "\r", "\f", "\v", "\x00", "\x00\x00", "\xa0", "\x85", "\xc2\xa0", "\xc2\x85",
 	"\\", "\\x41", "\\x4", "\\x", "\\u0041", "\\u00", "\\101", "\\1", "\\8", "\\n", "\\\\", "\\\"", "\\'", "\\0", "\\a", "\\xzz", "\\uzzzz", "\\377", "\\400",
+	"\\41 ", "\\000041", "\\0000411", "\\ff01", "\\FF5e", "\\d800", "\\110000", "\\ffffff", "\\\n", "\\1F600", "\\X41", "\\12", "\\7", "\\e9", "\\7ff", "\\800", "\\ffff", "\\10000", "\\?", "\\v", "\\41\t",
 	"&", "&#", "&#x", "&#x41;", "&#65;", "&#65", "&lt;", "&lt", "&amp;", "&nLl;", "&nbsp;", "&quot;", "&#0;", "&#x110000;",
 	"/*", "*/", "<!--", "-->", "--", "#", "/", "//", "/./", "/../", "..", ".", "\\", "a/../b",
 	"A", "Z", "a", "z", "AbC", "0", "9", "f", "F", "g", "G", "=", "==", "Zm9v", "Zg==", "Zm8=", "-", "_", ".", "!",
